@@ -132,6 +132,15 @@ class FiniteEval:
             if f == 'range':
                 return list(range(*[self.ev(a) for a in n.args]))
             if isinstance(n.func, ast.Attribute) and n.func.attr in (
+                    'index', 'count') and len(n.args) == 1:
+                base = self.ev(n.func.value)
+                if isinstance(base, (list, tuple)):
+                    try:
+                        return getattr(list(base), n.func.attr)(
+                            self.ev(n.args[0]))
+                    except ValueError:
+                        raise self.err(n, 'value not in the list')
+            if isinstance(n.func, ast.Attribute) and n.func.attr in (
                     'startswith', 'endswith', 'lower', 'upper', 'get',
                     'keys'):
                 base = self.ev(n.func.value)
